@@ -241,6 +241,16 @@ def judge_invariants(w, loaded, model: Model, contracts, spec, cls: str, meta) -
         w.violation("C18/invariant-list-differs", "{}.__invariants__ lists {} but the effective invariants are {}".format(cls, got, want),
                     {"prog": spec, "cls": cls, "meta": meta})
         return
+    # the two event-specific lists (what the wrappers evaluate) are exactly the entries of the documented list for that event
+    import icontract  # pylint: disable=import-outside-toplevel
+    for attr, event in (("__invariants_on_call__", icontract.InvariantCheckEvent.CALL), ("__invariants_on_setattr__", icontract.InvariantCheckEvent.SETATTR)):
+        listed = [c for c in getattr(cls_obj, "__invariants__", []) if event in c.check_on]
+        filtered = list(getattr(cls_obj, attr, []))
+        w.count("lists_compared")
+        if [id(c) for c in filtered] != [id(c) for c in listed]:
+            w.violation("C18/event-specific-invariant-list-differs-from-the-documented-list", "{}.{} holds {} but the entries of __invariants__ "
+                        "for that event are {}".format(cls, attr, [tok_of(c) for c in filtered], [tok_of(c) for c in listed]),
+                        {"prog": spec, "cls": cls, "meta": meta})
     if not want:
         return
     hub = loaded.hub
